@@ -22,6 +22,10 @@ Oracle, on every program the front end accepts:
     particular a field added by a join node (TableLeftJoinRightDistinct / TableIntervalJoin / MatrixAnnotateRowsTable /
     MatrixAnnotateColsTable), whose type the front end merely ASSERTS on its ProjectedTopLevelReference -- has the type
     that the emitted join node really binds (re-inferred, product flag included),
+  * every relational node (TableIR / MatrixIR) of every resulting dataset: the type the Python front end computes for
+    it == the type the ENGINE's rule gives for the same children types and parameters, field order included; the
+    engine's rules are transliterated from TableIR.scala / MatrixIR.scala into vf/c36_engine_types.py and share no
+    code with the Python typing rules being judged (so a wrong relational rule is no longer self-consistent),
   * the resulting dataset: row / global / key (and col / entry) types and key names reported by the front end
     == the type recomputed the same way by TableIR/MatrixIR._compute_type over the whole relational IR;
     every field expression ds[f].dtype == that type's field; the new field's dtype == e.dtype,
@@ -447,7 +451,8 @@ def lookup_tables(hl):
     M = M.annotate_cols(cv=[M.col_idx])
     M = M.annotate_entries(ev=M.row_idx / 2)
     M = M.annotate_globals(mg=(1, 'a'))
-    _state['aux'] = {'P': P, 'I': I, 'L': L, 'C': C, 'IC': IC, 'M': M}
+    C2 = C.key_by('k2', 'k1')                       # same fields, key order (str, int32), key fields not leading in key order
+    _state['aux'] = {'P': P, 'I': I, 'L': L, 'C': C, 'C2': C2, 'IC': IC, 'M': M}
     return _state['aux']
 
 
@@ -721,6 +726,7 @@ def check_value(acc, r, shown, prog, what):
     t, probs = reinfer(r._ir)
     for k, node, detail in probs:
         acc.violation(f'ir-{k}-type-disagrees:{node}:{what}', f'{what}: {detail}; ir={str(r._ir)[:400]}', prog)
+    check_engine_rules(acc, r._ir, prog, what)
     rp, unknown = check_refs(r._ir, ({}, None, None))
     acc.inc('dataset_refs_without_typed_binding', unknown)
     for k, node, detail in rp:
@@ -746,6 +752,37 @@ def check_dataset_refs(acc, rel_ir, prog, op):
         acc.violation(f'{k}-type-vs-relational-ir:{node}', f'{op}: {detail}; ir={str(rel_ir)[:600]}', prog)
 
 
+def check_engine_rules(acc, rel_ir, prog, op):
+    """every relational node's type as the Python front end computes it == the type the ENGINE's rule gives for the same
+    children types and parameters (vf.c36_engine_types, transliterated from TableIR.scala / MatrixIR.scala), field order
+    included.  Each node object is judged once."""
+    from hail.ir.base_ir import IR
+
+    from vf import c36_engine_types as ET
+
+    for n in _all_nodes(rel_ir):
+        if isinstance(n, IR) or getattr(n, '_vf_engine_checked', False):
+            continue
+        n._vf_engine_checked = True
+        k = type(n).__name__
+        try:
+            r = ET.engine_type(n)
+        except ET.EngineRejects:
+            acc.inc('engine_rule_rejects')
+            acc.inc(f'engine_rule_rejects:{k}')
+            continue
+        if r is None:
+            acc.inc(f'relational_not_modelled:{k}')
+            continue
+        acc.inc('relational_nodes_vs_engine_rule')
+        acc.inc(f'relational_vs_engine:{k}')
+        kind, ref, py = r
+        if not ET.same(ref, py):
+            acc.violation(f'relational-type-differs-from-engine-rule:{k}',
+                          f'{op}: {k}: the Python front end types this node as {ET.show(py)}; the engine\'s rule gives {ET.show(ref)}; '
+                          f'ir={str(n)[:500]}', prog)
+
+
 def check_table(acc, ds, prog, op, new=None):
     acc.inc('datasets_checked')
     t, probs = reinfer(ds._tir)
@@ -754,6 +791,7 @@ def check_table(acc, ds, prog, op, new=None):
     if t is None:
         return
     check_dataset_refs(acc, ds._tir, prog, op)
+    check_engine_rules(acc, ds._tir, prog, op)
     rep = (ds.row.dtype, ds.globals.dtype, list(ds.key.keys()), ds.key.dtype)
     ir_ = (t.row_type, t.global_type, list(t.row_key), t.key_type)
     if rep != ir_:
@@ -780,6 +818,7 @@ def check_mt(acc, ds, prog, op, new=None):
     if t is None:
         return
     check_dataset_refs(acc, ds._mir, prog, op)
+    check_engine_rules(acc, ds._mir, prog, op)
     rep = (ds.row.dtype, ds.col.dtype, ds.entry.dtype, ds.globals.dtype, list(ds.row_key.keys()), list(ds.col_key.keys()),
            ds.row_key.dtype, ds.col_key.dtype)
     ir_ = (t.row_type, t.col_type, t.entry_type, t.global_type, list(t.row_key), list(t.col_key), t.row_key_type, t.col_key_type)
@@ -877,6 +916,17 @@ def steps_for(ds, kind, level, fresh=None, depth=1):
             for aux in ('P', 'C', 'I'):
                 out.append(('semi_join', aux))
                 out.append(('anti_join', aux))
+            # Table.join against the lookup tables, and with the LEFT table re-keyed by a computed key (appended last), by a
+            # trailing field, and by two fields in the reverse of their row order
+            for how in ('inner', 'left', 'right', 'outer'):
+                for aux in ('P', 'C', 'C2'):
+                    out.append(('join_aux', aux, how))
+            if depth == 1 or fresh is not None:
+                ints = [f for f, t in row_fields if str(t) == 'int32']
+                for f in ints[:2]:
+                    for variant in ('computed', 'trailing', 'reordered'):
+                        for how in ('inner', 'left', 'right', 'outer'):
+                            out.append(('join_rekeyed', variant, f, how))
         for f, _ in row_fields:
             out.append(('key_by_field', f))
         out.append(('key_by_none',))
@@ -1032,6 +1082,22 @@ def apply_step(acc, ds, kind, step, depth, prog):
             return new, 'ht'
         if op == 'to_matrix_like':
             new = ds.annotate(**{nm: hl.range(2)}).explode(nm)
+        elif op == 'join_aux':
+            new = ds.join(lookup_tables(hl)[step[1]], how=step[2])
+        elif op == 'join_rekeyed':
+            _, variant, f, how = step
+            A = lookup_tables(hl)
+            if variant == 'computed':
+                new = ds.key_by(jk=ds[f] + 0).join(A['P'].rename({'idx': 'jk'}), how=how)
+            elif variant == 'trailing':
+                t = ds.annotate(zz=hl.str(ds[f]), jk=ds[f] + 0)
+                new = t.key_by('jk').join(A['P'].rename({'idx': 'jk'}), how=how)
+            elif variant == 'reordered':
+                # key ('k2', 'k1') on a row {.., k1, zz, k2}: key fields neither leading nor in row order
+                t = ds.annotate(k1=ds[f] + 0, zz=1.5, k2=hl.str(ds[f]))
+                new = t.key_by('k2', 'k1').join(A['C2'], how=how)
+            else:
+                raise HarnessGap(f'unknown join_rekeyed variant {variant}')
         elif op == 'semi_join':
             new = ds.semi_join(lookup_tables(hl)[step[1]])
         elif op == 'anti_join':
@@ -1490,7 +1556,11 @@ def check(tier, seed, procs):
         'ir_nodes_checked': total.get('ir_nodes_checked', 0),
         'refs_without_typed_binding': total.get('refs_without_typed_binding', 0),
         'dataset_refs_without_typed_binding': total.get('dataset_refs_without_typed_binding', 0),
-        'join_programs_accepted': sum(v for k, v in total.items() if k.startswith('accepted_step:') and (':j_' in k or ':jb_' in k or 'semi_join' in k or 'anti_join' in k)),
+        'relational_nodes_compared_with_engine_rule': total.get('relational_nodes_vs_engine_rule', 0),
+        'relational_nodes_per_class': {k[21:]: v for k, v in sorted(total.items()) if k.startswith('relational_vs_engine:')},
+        'relational_nodes_not_modelled': {k[23:]: v for k, v in sorted(total.items()) if k.startswith('relational_not_modelled:')},
+        'engine_rule_rejects': {k[20:]: v for k, v in sorted(total.items()) if k.startswith('engine_rule_rejects:')},
+        'join_programs_accepted': sum(v for k, v in total.items() if k.startswith('accepted_step:') and (':j_' in k or ':jb_' in k or 'semi_join' in k or 'anti_join' in k or ':join_' in k)),
         'datasets_checked': total.get('datasets_checked', 0),
         'aggregate_results_checked': total.get('aggregate_results', 0),
         'literal_values': total.get('literal_values', 0),
@@ -1517,6 +1587,11 @@ def check(tier, seed, procs):
             'hail runs against vf.hailenv (dummy backend) and the parsimonious shim; steps that need the engine are counted and skipped',
             'programs the front end rejects (TypeError, ExpressionException, LookupError, AttributeError, ValueError, '
             'NotImplementedError, HailUserError) are counted, never violations',
+            'the engine\'s relational typing rules are a hand transliteration (vf/c36_engine_types.py) of TableIR.scala / MatrixIR.scala '
+            'and TableType / MatrixType / TStruct helpers; node classes whose rule depends on a reader or a registered function, or was '
+            'not transliterated, are skipped and counted: TableRead, MatrixRead, TableToTableApply, MatrixToTableApply, '
+            'MatrixToMatrixApply, TableMapPartitions, TableMultiWayZipJoin, TableGen, TableRepartition, MatrixRepartition, BlockMatrix*; '
+            'value-IR children (newRow, expr, ...) contribute the type the Python IR infers for them',
             '"value satisfies type" for literals is judged by a reference predicate written for the check (missing allowed everywhere); '
             'HailType.typecheck is run too but only reported, because it mishandles None in container positions',
         ],
